@@ -251,6 +251,7 @@ def run(ctx):
     _semantic_values_always_set(ctx)
     _folded_into_the_base_only_without_adjustment(ctx)
     _signature_keys_keep_reference_constness(ctx)
+    _operator_names_are_spelled_as_the_grammar_spells_them(ctx)
     # R05.13 = R06.16 applied to CPPInstance::operator<, which orders the parameter instances inside a function type: a
     # parameter WITH a default value must not tie with the same parameter without one, or CPPType::new_type() hands the second
     # function the first one's parameter list and the database records the wrong `optional` flags (seed S11-C05)
@@ -876,3 +877,54 @@ def _signature_keys_keep_reference_constness(ctx):
                    "only a const reference is replaced by its target in the signature key" if ok else
                    "every reference is stripped from the key: f(T &) and f(const T &) become one variant")
     ctx.floor("R05.12", "unwrap_const_reference in get_function_signature", n, 1)
+
+
+def _operator_names_are_spelled_as_the_grammar_spells_them(ctx):
+    """R05.14: operator roles (unary, assignment, comparison, call, index ...) are decided by comparing a function's name
+    with string literals.  The names are made in one place, the grammar: "operator " + the text a function_operator
+    action assigns (`operator ()`, `operator []`, `operator <=>` ...).  A literal that is compared with a name - operand of
+    ==, !=, compare() or a by-name find() - and begins with "operator" must be such a name or a prefix of one; any other
+    spelling never matches and the branch it guards is dead.  (Seed S12-C05: add_func_modifier's exclusion list spelled
+    "operator()"; a nullary call operator was recorded as a unary operator, apart from its overloads.)"""
+    db = ctx.db
+    ctx.rule("R05.14", "every operator-name literal compared with a function name is a name (or a prefix of a name) the grammar produces")
+    yys = [g for g in db.functions if g.name.endswith("cppyyparse")]
+    if not yys:
+        ctx.broken("R05.14: generated parser not found")
+        return
+    yy = yys[0]
+    bc = db.meta.get("bison_cases", {})
+    ops = set()
+    for cs in yy.walk():
+        if cs.get("k") == "case" and (bc.get(cs.get("v")) or ("",))[0] == "function_operator":
+            for y in walk(cs.get("sub") or {}):
+                if y.get("k") == "str" and y.get("v"):
+                    ops.add(y["v"])
+    names = {"operator " + o for o in ops} | {"operator typecast", 'operator "" '}
+    if len(ops) < 30:
+        ctx.broken("R05.14: only %d function_operator spellings found in the generated parser" % len(ops))
+        return
+    n = 0
+    for f in db.functions:
+        if f is yy or not ("/cppparser/" in f.file or "/interrogate/" in f.file):
+            continue
+        for y in f.walk():
+            if y.get("k") != "str" or not (y.get("v") or "").startswith("operator"):
+                continue
+            how = None
+            for a in list(f.ancestors(y))[:4]:
+                if a.get("k") == "call":
+                    fn = a.get("f") or ""
+                    if fn in ("std::operator==", "std::operator!=", "std::basic_string::compare") or fn.endswith("::find") or fn.endswith("::count"):
+                        how = fn
+                    break
+                if a.get("k") not in ("ctor", "cast", "temp", "bind"):
+                    break
+            if how is None:
+                continue
+            n += 1
+            v = y["v"]
+            ok = any(nm.startswith(v) for nm in names) or v.startswith("operator typecast ") or v.startswith('operator "" ')
+            ctx.ob("R05.14", "%s|\"%s\"@%s|a-spelling-the-grammar-produces" % (f.name, v, f.loc(y).split(":")[-1]), ok, f.loc(y),
+                   "compared via %s" % how if ok else "\"%s\" is no name the grammar makes (it writes \"operator \" + one of %d spellings): this comparison never matches" % (v, len(ops)))
+    ctx.floor("R05.14", "operator-name literals in comparisons", n, 60)
